@@ -344,6 +344,7 @@ def case_rtl(**p):
   flat = np.concatenate([a for _, a in sorted(zip(keys, xs), key=lambda t: t[0])], axis=1)
   # reference: gather the recorded indices into the corresponding lattice layers
   per = {0: [], 1: []}
+  per_tf = {0: [], 1: []}
   for monos, units_inputs in struct:
     lat = layer._lattice_layers[str(monos)]
     u = len(units_inputs)
@@ -353,6 +354,7 @@ def case_rtl(**p):
     tl = Traced(lambda t, lat=lat: lat(t), [tf.TensorSpec(list(inp.shape), tf.float32)], name='lattice%s' % str(monos))
     (o,) = tl.sym_run(inp, var_values=vv)
     per[max(monos)].append(np.asarray(o, dtype=object).reshape(1, -1))
+    per_tf[max(monos)].append((tl, inp))
   case.meta.update(validation_points=done, validation_mismatch=mism, ops=tr.ops_seen, structure=str(struct)[:300])
   if p.get('separate'):
     refs = []
@@ -371,8 +373,28 @@ def case_rtl(**p):
       ref = np.array([[sym.s_mul(acc, Fraction(1, ref.size))]], dtype=object)
     pairs = list(zip(np.asarray(outs[0], dtype=object).reshape(-1), ref.reshape(-1)))
   case.identity('rtl-equals-gathered-lattices', pairs, witness=dict(wit, **{'x%d' % i: a for i, a in enumerate(xs)}), timeout=120,
-                sig=dict(query='rtl'), replay=None)
+                sig=dict(query='rtl'), inline_replay=lambda m: _rtl_replay(m, tr, xs, vv, per_tf, p))
   return case
+
+
+def _rtl_replay(m, tr, xs, vv, per_tf, p):
+  """the real RTL layer against the real lattice layers applied to the gathered columns (witness values)"""
+  vvn = {k: core.model_np(m, v) for k, v in vv.items()}
+  outs = tr.tf_run(*[core.model_np(m, a) for a in xs], var_values=vvn)
+  got = np.concatenate([np.asarray(o, dtype=np.float64).reshape(-1) for o in outs])
+
+  def run(mono):
+    return [np.asarray(tl.tf_run(core.model_np(m, inp), var_values=vvn)[0], dtype=np.float64).reshape(-1) for tl, inp in per_tf[mono]]
+  if p.get('separate'):
+    ref = np.concatenate([np.concatenate(run(mono)) for mono in (1, 0) if per_tf[mono]])
+  else:
+    ref = np.concatenate(run(0) + run(1))
+    if p.get('average'):
+      ref = np.array([np.mean(ref)])
+  if got.shape != ref.shape:
+    return dict(reproduced=True, detail=dict(shapes=[list(got.shape), list(ref.shape)]))
+  d = float(np.max(np.abs(got - ref)))
+  return dict(reproduced=bool(d > 1e-4 * max(1.0, float(np.max(np.abs(ref))))), detail=dict(max_abs_diff=d, rtl=got.tolist(), gathered=ref.tolist()))
 
 
 def replay(r):
